@@ -748,7 +748,16 @@ func extractCompare(dir string, members []member, e *expander, t0, t1 int64) []i
 			bad("kind", src.Kind, got.Kind)
 			continue
 		}
-		if src.Kind != "l" && !o.HasPerm && got.Mode&07777 != src.Mode&07777 {
+		permMask := uint32(07777)
+		if src.Kind == "d" {
+			// a directory made below a set-group-ID directory inherits the bit, and GNU tar
+			// does not chmod a directory whose mode it believes to be right already: the bit
+			// is the extraction's, not the archive's (the header is judged separately)
+			if parent, ok := lstatRec(path.Dir(path.Join(x, name))); ok && parent.Mode&02000 != 0 {
+				permMask = 07777 &^ 02000
+			}
+		}
+		if src.Kind != "l" && !o.HasPerm && uint32(got.Mode)&permMask != uint32(src.Mode)&permMask {
 			bad("perm", fmt.Sprintf("%o", src.Mode&07777), fmt.Sprintf("%o", got.Mode&07777))
 		}
 		if !o.HasUid && got.Uid != src.Uid {
